@@ -252,10 +252,10 @@ theorem tx_resent_whole (o : Opt) (attempts : Nat) (cc : Conn) (cs : List Entry)
   rw [hd]
   refine ⟨by rw [rqEntries_mkRq], rfl, by rw [ht'], by rw [ht'], ?_⟩
   cases hc : classify resp with
-  | ask a => exact ⟨_, by simp [mkRq]⟩
-  | none => exact ⟨_, by simp [mkRq]⟩
-  | retry => exact ⟨_, by simp [mkRq]⟩
-  | move a => exact ⟨_, by simp [mkRq]⟩
+  | ask a => exact ⟨(redirectOrNew c a cc cm.slot false).1, by simp [mkRq]⟩
+  | none => exact ⟨cc, by simp [mkRq]⟩
+  | retry => exact ⟨cc, by simp [mkRq]⟩
+  | move a => exact ⟨(redirectOrNew c a cc cm.slot true).1, by simp [mkRq]⟩
 
 /-- …exactly once: after the block was recorded (`mi = m`, `ei = e`), a later member strictly inside it whose
     reply is redirect-class is not queued again. (The EXEC at `e` is not covered by this skip: if both a
